@@ -285,7 +285,7 @@ fn fault_section(shard: Shard, rep: &mut Report) {
     for auto_sync in [true, false] {
     scn::AUTO_SYNC.with(|a| a.set(auto_sync));
     for scn in scn::all_scenarios() {
-        if scn.debris() || matches!(scn.op.as_str(), "get" | "touch" | "accept") {
+        if scn.debris() || matches!(scn.op.as_str(), "touch" | "accept") {
             continue;
         }
         // (handles built with auto_sync(false) only for the library-populated paths, where the flush is the library's)
@@ -322,6 +322,22 @@ fn fault_section(shard: Shard, rep: &mut Report) {
                 rep.traces += 1;
                 rep.transitions += t.len() as u64;
                 rep.count("content_invariant_under_fault_cases", 1);
+                // whatever failed on the way: bytes read from a returned handle are one complete value for the key
+                if let Ok(o) = &_r {
+                    if let Res::Hit(bytes) = &o.res {
+                        let ok = match (world::identify(bytes), w.get("key")) {
+                            (Some(v), Some(vals)) => vals.contains(&v),
+                            _ => false,
+                        };
+                        if !ok {
+                            rep.violation(
+                                "content:foreign-or-partial-read-under-fault",
+                                format!("{} with call {} ({}) failing {:?}: the returned handle read {}", scn.to_json(), k, trace[k].func, a, world::describe_bytes(bytes)),
+                                serde_json::json!({"fault_section": true}),
+                            );
+                        }
+                    }
+                }
                 let hits = ctl.hits.lock().unwrap().clone();
                 if let Some(m) = hits.first() {
                     rep.violation(
